@@ -293,6 +293,36 @@ def hyp_run(rec, sub, strategy, check, max_examples, shrink=None, nsteps=None):
     return True
 
 
+def hyp_stateful(rec, sub, machine_cls, holder, max_examples, steps, shrink=True):
+    """Drive a RuleBasedStateMachine.  The machine stores the failing history in
+    holder['case'] / holder['fails'] and raises Violation."""
+    from hypothesis import settings, HealthCheck, Phase, seed as hseed
+    from hypothesis import errors as herr
+    from hypothesis.stateful import run_state_machine_as_test
+    phases = [Phase.explicit, Phase.generate, Phase.target] + ([Phase.shrink] if shrink else [])
+    st_ = settings(max_examples=max_examples, stateful_step_count=steps, database=None,
+                   deadline=None, derandomize=False, report_multiple_bugs=False, phases=phases,
+                   suppress_health_check=list(HealthCheck), print_blob=False)
+    m = hseed(derive_seed(rec.seed, rec.pid, rec.shard, sub))(machine_cls)
+    holder.clear()
+    try:
+        run_state_machine_as_test(m, settings=st_)
+    except Violation:
+        rec.violation(sub, holder["case"], holder["fails"])
+        return False
+    except herr.Flaky:
+        if "case" in holder:
+            rec.violation(sub, holder["case"], holder["fails"], flaky=True)
+            return False
+        raise
+    except BaseException as e:
+        if "case" in holder and isinstance(getattr(e, "__cause__", None), Violation):
+            rec.violation(sub, holder["case"], holder["fails"])
+            return False
+        raise
+    return True
+
+
 def _in_code_under_test(e):
     """True when the traceback of e passes through the ImageD11 package (shadow or repo)."""
     marks = [os.environ.get("VERIF_SHADOW") or "\0", os.environ.get("VERIF_REPO") or "\0"]
